@@ -167,6 +167,8 @@ def install(I):
     def xr_to_int(v):
         """int(float): truncation toward zero; raises on nan/inf"""
         c = ctx()
+        if v.int_of is not None:
+            return v.int_of
         if v.is_const():
             if v.nan:
                 raise PyRaise("ValueError", "cannot convert float NaN to integer")
